@@ -19,7 +19,7 @@ from vlib import tlaval, tlc, walk
 from vlib.runner import BUILD
 
 NULLT = -1
-ALL_AVOID = ("ooc", "toctou", "uncchild", "pendrel")
+ALL_AVOID = ("ooc", "toctou", "pendrel")
 
 INVARIANTS = ["TypeOK", "C01_User", "C01_Group", "C02_Billing", "C04_Tally", "C05_Gate", "C05_FailCancels", "C06_Batch",
               "C06_Groups", "C06_Counts", "C10_Free", "C41_Uncommitted", "C41_NotDispatched"]
@@ -1288,6 +1288,9 @@ def random_history(p: Program, rng: random.Random, length: int, seed: int):
         return st["us"][p.jobs[j]["upd"]] == "committed"
 
     def has_uncommitted_child(j):
+        return False        # (since migration 123 children of an update that is not committed are not released: no scenario to stay out of)
+
+    def _had_uncommitted_child(j):
         return any(j in d["par"] and st["js"][c] != "none" and not committed(c) for c, d in p.jobs.items())
 
     try:
